@@ -75,7 +75,7 @@ fn c06_5b_constant_tween() {
     kani::cover!(t > 0.0 && t < 1.0);
 }
 
-// @ob id=C06.5c strength=bounded tier=thorough timeout=3600 bound="a, b, amount restricted to 4 significant mantissa bits" fn=tween/tweenable.rs::<f64 as Tweenable>::interpolate
+// @ob id=C06.5c strength=bounded tier=disabled bound="a, b, amount restricted to 4 significant mantissa bits" fn=tween/tweenable.rs::<f64 as Tweenable>::interpolate
 // @req |a|,|b| <= 1e6, amount in [0,1]
 // @ens the value never leaves [min(a,b), max(a,b)] (widened by 2.4e-10) and is monotone in the amount
 #[kani::proof]
